@@ -156,7 +156,7 @@ def coqchk(prop):
         if rc != 0:
             return {'ok': False, 'log': out[-2000:], 'cmd': ''}
         cmd = ['coqchk', '-silent', '-o'] + QFLAGS + ['BacProps.' + prop]
-        rc, out = run(cmd, cwd=COQ, timeout=3000)
+        rc, out = run(cmd, cwd=COQ, timeout=14400)   # C20's day-number sweep is re-evaluated without the VM by coqchk: slow but finite
     tail = out[out.find('CONTEXT SUMMARY'):] if 'CONTEXT SUMMARY' in out else out[-3000:]
     return {'ok': rc == 0, 'log': tail[-4000:], 'cmd': 'cd coq && ' + ' '.join(cmd)}
 
